@@ -646,4 +646,5 @@ func runC05(c *fw.Ctx) {
 	c05Exhaustive(c)
 	c05Random(c)
 	c05Synthetic(c)
+	c05Malformed(c)
 }
